@@ -52,17 +52,18 @@ static void on_prog (VProg * vp, void *user)
   OrcExecutor ex;
   unsigned char *E[V_MAXV] = { 0 }, *R[V_MAXV] = { 0 };
   uint64_t tval[V_MAXV];
+  uint64_t asum[V_MAXV] = { 0 };
   int i, k, e, np = 0, bad = 0;
   char msg[400];
   (void) user;
   if ((idx % nshards) != shard) return;
   if (vp->is2d) { st_skipped++; return; }
-  for (i = 0; i < vp->nv; i++) if (vp->v[i].kind == VK_A) { st_skipped++; return; }
   for (i = 0; i < vp->ni; i++) {
     const OrcStaticOpcode *o = orc_opcode_find_by_name (vp->in[i].op);
     uint64_t d, d2;
     int cls;
-    if (!o || (o->flags & (ORC_STATIC_OPCODE_LOAD | ORC_STATIC_OPCODE_STORE | ORC_STATIC_OPCODE_ACCUMULATOR)) || op_is_float (o)) { st_skipped++; return; }
+    if (!o || (o->flags & (ORC_STATIC_OPCODE_LOAD | ORC_STATIC_OPCODE_STORE)) || op_is_float (o)) { st_skipped++; return; }
+    if (o->flags & ORC_STATIC_OPCODE_ACCUMULATOR) continue;	/* accw, accl, accsadubl: summed below */
     if (!ref_eval (o->name, o->dest_size[0], o->dest_size[1], o->src_size[0], o->src_size[1], 1, 1, &d, &d2, &cls)) { st_skipped++; return; }
   }
   memset (small_param, 0, sizeof (small_param));
@@ -114,6 +115,20 @@ static void on_prog (VProg * vp, void *user)
       int nd = op_ndst (o), ns = op_nsrc (o), lane, s;
       uint64_t src[3] = { 0, 0, 0 }, out[2] = { 0, 0 };
       int scalar_src[3] = { 0, 0, 0 };
+      if (o->flags & ORC_STATIC_OPCODE_ACCUMULATOR) {
+        /* the accumulator adds, from zero and modulo its width, the source element (accsadubl: |a - b| of bytes) */
+        uint64_t a0, b0 = 0;
+        const VVar *v0 = &vp->v[in->args[1]];
+        a0 = (v0->kind == VK_S || v0->kind == VK_D) ? rd (R[in->args[1]] + (size_t) e * v0->size, v0->size) : v0->kind == VK_T ? tval[in->args[1]] : v0->kind == VK_C ? (uint64_t) v0->cval : pval[in->args[1]];
+        if (ns > 1) {
+          const VVar *v1 = &vp->v[in->args[2]];
+          b0 = (v1->kind == VK_S || v1->kind == VK_D) ? rd (R[in->args[2]] + (size_t) e * v1->size, v1->size) : v1->kind == VK_T ? tval[in->args[2]] : v1->kind == VK_C ? (uint64_t) v1->cval : pval[in->args[2]];
+        }
+        if (mult != 1) { bad = -1; break; }
+        if (!strcmp (o->name, "accsadubl")) { int dd = (int) (a0 & 0xff) - (int) (b0 & 0xff); asum[in->args[0]] += (uint64_t) (dd < 0 ? -dd : dd); }
+        else asum[in->args[0]] += a0 & ref_mask (o->src_size[0]);
+        continue;
+      }
       for (s = 0; s < ns && s < 3; s++) {
         const VVar *v = &vp->v[in->args[nd + s]];
         int vi = in->args[nd + s];
@@ -157,6 +172,17 @@ static void on_prog (VProg * vp, void *user)
         viol (vp, "value", msg);
         break;
       }
+    }
+  }
+  if (bad >= 0) for (i = 0; i < vp->nv; i++) if (vp->v[i].kind == VK_A) {
+    uint64_t m = vp->v[i].size == 2 ? 0xffff : 0xffffffffu;
+    unsigned got = (unsigned) ex.accumulators[vp->v[i].idx - ORC_VAR_A1];
+    st_elements += N;
+    if (((uint64_t) got & m) != (asum[i] & m)) {
+      char nm[16];
+      vprog_varname (vp, i, nm);
+      snprintf (msg, sizeof (msg), "emulation leaves 0x%x in accumulator %s, the reference sum modulo 2^%d is 0x%llx (n=%d)", got, nm, vp->v[i].size * 8, (unsigned long long) (asum[i] & m), N);
+      viol (vp, "value", msg);
     }
   }
   for (i = 0; i < vp->nv; i++) { free (E[i]); free (R[i]); }
@@ -213,6 +239,8 @@ static void worker (long start, void *user)
   if (strstr (g_levels, "L2")) pgen_L2 (on_prog, NULL, PG_INT);
   if (strstr (g_levels, "L3")) pgen_L3 (on_prog, NULL, PG_INT);
   if (strstr (g_levels, "L1")) pgen_L1 (on_prog, NULL, PG_INT);
+  if (strstr (g_levels, "L5")) pgen_L5 (on_prog, NULL);
+  if (strstr (g_levels, "L6")) pgen_L6 (on_prog, NULL, PG_INT);
   v_out ("{\"t\":\"stat\",\"ref_programs\":%ld,\"ref_programs_outside_the_interpreter\":%ld,\"ref_elements_compared\":%ld,\"violations_raw\":%ld}", st_programs, st_skipped, st_elements, st_viol);
   v_out ("{\"t\":\"max\",\"ref_space_size\":%ld}", g_idx);
 }
